@@ -1,50 +1,5 @@
 // harness module `tables` (C04): precomputed attack tables equal ray/step attacks for every square and occupancy.
-// The oracle is written from the property statement: slide along each ray until the first blocker (blocker included);
-// leapers: step patterns clipped at the board edge.  Square numbering: index = row * 8 + file, row 0 = rank 8.
-
-const ROOK_DIRS: [(i32, i32); 4] = [(0, 1), (0, -1), (1, 0), (-1, 0)];
-const BISHOP_DIRS: [(i32, i32); 4] = [(1, 1), (1, -1), (-1, 1), (-1, -1)];
-const KING_STEPS: [(i32, i32); 8] = [(0, 1), (0, -1), (1, 0), (-1, 0), (1, 1), (1, -1), (-1, 1), (-1, -1)];
-const KNIGHT_STEPS: [(i32, i32); 8] = [(1, 2), (1, -2), (-1, 2), (-1, -2), (2, 1), (2, -1), (-2, 1), (-2, -1)];
-// (d_row, d_file): white pawns capture towards row 0 (rank 8), black pawns towards row 7 (rank 1)
-const WHITE_PAWN_STEPS: [(i32, i32); 2] = [(-1, -1), (-1, 1)];
-const BLACK_PAWN_STEPS: [(i32, i32); 2] = [(1, -1), (1, 1)];
-
-fn ray_ref(sq: u32, occ: u64, dirs: &[(i32, i32); 4]) -> u64 {
-    let mut result = 0u64;
-    let mut d = 0;
-    while d < 4 {
-        let (dr, df) = dirs[d];
-        let mut r = (sq / 8) as i32 + dr;
-        let mut f = (sq % 8) as i32 + df;
-        while r >= 0 && r < 8 && f >= 0 && f < 8 {
-            let m = 1u64 << (r * 8 + f);
-            result |= m;
-            if occ & m != 0 {
-                break;
-            }
-            r += dr;
-            f += df;
-        }
-        d += 1;
-    }
-    result
-}
-
-fn step_ref<const N: usize>(sq: u32, steps: &[(i32, i32); N]) -> u64 {
-    let mut result = 0u64;
-    let mut i = 0;
-    while i < N {
-        let r = (sq / 8) as i32 + steps[i].0;
-        let f = (sq % 8) as i32 + steps[i].1;
-        if r >= 0 && r < 8 && f >= 0 && f < 8 {
-            result |= 1u64 << (r * 8 + f);
-        }
-        i += 1;
-    }
-    result
-}
-
+// (the oracle ray_ref / step_ref of kani/oracle.rs precedes this text inside `mod verif_kani`)
 #[kani::proof]
 #[kani::unwind(9)]
 fn king_table() {
